@@ -385,6 +385,24 @@ def random_case(ctx: Ctx):
     return {"freq": f, "ic": rng.choice([0, 0, 0, 1]), "tag": "random", "events": merged}
 
 
+def big_case(ctx: Ctx):
+    """one rank, several thousand device slices (beyond any plausible buffer size of a holding stage), a 2^32 wrap after
+    the first few hundred of them in time - and the file lists the part BEHIND the wrap first: the reference epoch of the
+    rank is only known once the last listed event has been seen"""
+    rng = ctx.rng
+    f = rng.choice([512, 1024])
+    n = rng.randint(4200, 4600)
+    cut = rng.randint(20, 400)
+    H = float(rng.randint(0, 1 << 30))
+    ts = [Fraction(20 * i) for i in range(n)]
+    D = M32 - int(ts[cut] * f) + rng.choice([0, 3, -3])
+    evs = []
+    for i, t in enumerate(ts):
+        ptype = PHASES[i % len(PHASES)][0]
+        evs.append(dev_slice(i + 1, 0, ptype, [t, t + 2, t + 5, t + 9, t + 12], f, H, D, job=0, attr=(i % 2 == 0), hex=False))
+    return {"freq": f, "ic": 0, "tag": "big-out-of-order", "events": evs[cut:] + evs[:cut]}
+
+
 def malformed_case(ctx: Ctx):
     """streams outside the hypothesis: model comparison only (the oracle skips ranks that violate it)"""
     rng = ctx.rng
@@ -454,6 +472,8 @@ def gen_cases(ctx: Ctx):
         yield random_case(ctx)
     for _ in range(ctx.n(1200, 12000)):
         yield malformed_case(ctx)
+    for _ in range(ctx.n(1, 4)):
+        yield big_case(ctx)
 
 
 # ---------------------------------------------------------------------------------------------
@@ -623,14 +643,19 @@ def shrink(ctx: Ctx, case, classifier):
         return case
     case = copy.deepcopy(case)
 
+    budget = [400]
+
     def bad(c):
+        if budget[0] <= 0:
+            return False
+        budget[0] -= max(1, len(c["events"]) // 50)      # long streams cost more per evaluation
         try:
             v = oracle(c, run_real(c))
         except Exception:
             return False
         return v is not None and v[0] == classifier
     changed = True
-    while changed:
+    while changed and budget[0] > 0:
         changed = False
         for j in range(len(case["events"])):
             c2 = dict(case, events=case["events"][:j] + case["events"][j + 1:])
